@@ -36,6 +36,10 @@ ALIASES = [
     ("C10.R4", c13.r9, "compiled files are resolved and analysed against the code base's own root (= C13.R9)"),
     ("C15.R5", c13.r9, "the root itself is canonical, however it was spelled (= C13.R9)"),
     ("C05.R6", c17.r4_dups, "no extension is claimed by two languages (= part of C17.R4)"),
+    ("C03.R11", c04.r4, "every -D string of a command is parsed like a #define and defined on the command's platform under the macro's own name (= C04.R4)"),
+    ("C08.R6", c04.r4, "every database entry is analysed on one fresh Platform of its own, named after its platform (= C04.R4)"),
+    ("C18.R8", c04.r4, "a forced include that cannot be found is reported once, naming the requested and the compiled file (= C04.R4)"),
+    ("C11.R9", c04.r4, "the extracted -I / -D / -include lists reach the platform complete and in order (= C04.R4)"),
     ("C05.R5", c17.r3, "a file is scanned with the line source of its (inherited) language (= C17.R3)"),
 ]
 
